@@ -274,6 +274,12 @@ Fixpoint md_get (md : list (mdkey * bytes)) (k : mdkey) : bytes :=   (* md.get(K
   | [] => []
   | (k', v) :: md' => if mdkey_eqb k k' then v else md_get md' k
   end.
+(* the protocol_hash a server advertises (RpcServer.protocol_hash, the describe metadata, access-log records) *)
+Definition advertised_hash (H : bytes -> bytes) (dv rv : bytes) (svc : service) : bytes :=
+  md_get (d_md (build_describe H dv rv svc)) KProtocolHash.
+(* SHA-256 idealised: no two payloads share a digest *)
+Definition collision_free (H : bytes -> bytes) : Prop := forall a b, H a = H b -> a = b.
+
 Definition parse_kind (s : bytes) : option mtype :=                    (* MethodType(value); ValueError otherwise *)
   if bytes_eqb s mt_unary then Some Unary else if bytes_eqb s mt_stream then Some Stream else None.
 Fixpoint dict_set {V} (d : list (bytes * V)) (k : bytes) (v : V) : list (bytes * V) :=   (* d[k] = v *)
@@ -395,6 +401,10 @@ Definition run_pair (x : bytes * bytes * service * service) : bool :=
   let '(dv, rv, a, b) := x in
   bytes_eqb (payload dv rv (s_name a) (build_rows (s_methods a)))
             (payload dv rv (s_name b) (build_rows (s_methods b))).
+
+(* both of the above behind one entry point, so that a base service, its edits and the pairs share one cases file *)
+Definition run_any (x : (bytes * bytes * service * bytes) + (bytes * bytes * service * service)) : val :=
+  match x with inl a => run_case a | inr b => v_bool (run_pair b) end.
 
 (* describe under an arbitrary client version: 1 = answered with the describe response *)
 Definition run_describe_call (x : option (N * N * N) * option (list N)) : bool :=
